@@ -10,28 +10,31 @@
   Model: SH/Model/Binlog.lean (putLevToBuffer, writer loop + file system, reader loop, scan/seek, engine stub).
   crc32 is the parameter `Cfg.upd`; md5 hashes and clocks are inputs.
 
-  What is proved here (all kernel-checked, for ALL inputs of the stated shape):
+  What is proved here (all kernel-checked, for ALL inputs of the stated shape; helper developments in SH/Lemmas/Binlog*.lean):
     * `crcUpdate_append`          the driver's crc32 satisfies the streaming law the reader/writer rely on
-    * `readStep_cont`             shape lemma: every continuing reader step consumes n bytes; pos/rest/crc move together
-    * `reach_consumed`            hence after any number of steps the running crc is `upd crc0 (consumed bytes)` — for ANY bytes
-    * `crc_record_checked`        reduction form of "corruption is detected": a crc record reached after consuming `k` bytes is
-                                  rejected with a checksum error iff the stored value differs from `upd crc0 (first k bytes)`
-    * `replay_all`                replay_all + offsets_match_writer + resume_suffix for one file: starting at ANY writer state
-                                  (start of log, or any later event boundary with the crc committed there) the reader delivers
-                                  exactly the events appended afterwards, in order, at the offsets the writer assigned, crc
-                                  records (at any `crcEvery`) included, and ends at the writer's position and crc
-    * `commit_monotone`, `commit_all_synced_partial`   writer loop: commit offsets never decrease over any schedule of appends and
-                                  loop iterations; when a commit is issued no written byte is unsynced
-    * `putLev_no_panic`           after the fix (WriteLoop restores hashBuff2 on restart) no Append ever takes the out-of-range
-                                  slice of the first chunk's md5; the old behaviour panics (`decide` witness at the end)
-  Partial / not proved (kept as comments at the end): `truncate_prefix` (only its step lemma `readStep_event` with arbitrary
-  slack is proved), rotation inside the proved stream (multi-file `readAll`), `seek`, and `commit ≤ bytes written` (needs the
-  rotatePos well-formedness invariant). Those are covered by the correspondence and the direct oracle of go/C18 only
-  (thorough tier: every truncation offset and every single-bit flip of the last two chunks).
-  Known finding `truncated-file-header`: see the `decide` witnesses at the end.
+    * `readStep_cont`, `reach_consumed`, `crc_record_checked`   after ANY bytes the running crc is `upd crc0 (consumed bytes)`; a crc
+                                  record is rejected with a checksum error iff the stored value differs (reduction form)
+    * `replay_all`                one chunk (kept from round 1)
+    * `replay_rotating`           replay_all + offsets_match_writer + resume_suffix ACROSS ROTATIONS: from any writer state (log
+                                  start or any commit position with its crc) reading the current file and the later files the
+                                  writer lays out delivers exactly the appended events at the offsets Append returned, through any
+                                  number of ROTATE_TO/ROTATE_FROM boundaries and crc records (`sim` in Lemmas/BinlogSim is the
+                                  general simulation with an arbitrary continuation)
+    * `seek_resume`, `seek_nometa` the seek step of a resume with / without snapshot meta lands in that state
+    * `truncate_prefix`           the last chunk cut at ANY point behind its ROTATE_FROM header: replay ends without error and
+                                  delivers exactly the events that are complete in the cut — a prefix, never a partial event;
+                                  the excluded case (cut inside the header) is the known finding, `decide` witnesses at the end
+    * `apNext_buff`               the layout's bytes are exactly what `putLevToBuffer` puts into the buffer (+ rotatePos entry)
+    * `commit_monotone`, `commit_all_synced_partial`, `commit_le_fsynced`   for every schedule of appends and loop iterations commit
+                                  offsets never decrease and never exceed the bytes that are in the files and covered by an fsync
+                                  (invariant `FsInv`: buffer accounting + rotatePos well-formedness `WF`)
+    * `putLev_no_panic`           a writer restarted in the first chunk never takes the out-of-range hashBuff2 slice
+  Remaining gaps: see the comment block at the end.
 -/
 import SH.Model.Binlog
 import SH.Lemmas.Binlog
+import SH.Lemmas.BinlogCut
+import SH.Lemmas.BinlogWriter
 open SH.Binlog
 namespace SH.C18
 
@@ -116,6 +119,114 @@ theorem replay_all (cfg : Cfg) (hm : cfg.evMagic < 4294967296) (hsvc : cfg.evMag
       refine ⟨ih.1, ih.2.1, ?_, ih.2.2.2.1, ih.2.2.2.2⟩
       rw [ih.2.2.1]; simp [afterEvent, hoff, evBytes]
 
+
+
+/-! ### replay across rotations, truncation (Lemmas/BinlogRot, BinlogSim, BinlogCut) -/
+
+/-- **replay_rotating (replay_all + offsets_match_writer + resume_suffix across ROTATIONS).**  For every list of appends, every
+    chunk size and crc interval: let the reader stand at ANY writer state `w` (the start of the log after its header, or any
+    later commit position with the crc reported there — i.e. after `seek` with the snapshot meta), let the rest of the current
+    file and the later files be what the writer lays out for the appends `as` (any number of ROTATE_TO / ROTATE_FROM boundaries,
+    crc records included).  Then `readLoop` on the current file followed by `readFiles` on the later ones ends without error,
+    delivers exactly the events of `as`, in order, each at the offset `Append` returned, and ends at the writer's position/crc. -/
+theorem replay_rotating (cfg : Cfg) (hm : cfg.evMagic < 4294967296) (hsvc : cfg.evMagic ∉ serviceMagics)
+    (as : List Ap) (w : WS) (s : RS) (fuel : Nat)
+    (hsz : ∀ a ∈ as, a.body.length < 4294967296 ∧ a.ts < 4294967296)
+    (hbound : (runAll cfg w as).offG < 9223372036854775808)
+    (h : At s w.offG w.crc (layoutC cfg w as ([], [])).1)
+    (hf : (layoutC cfg w as ([], [])).1.length / 4 + 2 ≤ fuel) :
+    (finish cfg (readLoop cfg fuel s) ((layoutC cfg w as ([], [])).2.map hdrOf)).2.2.1 = none ∧
+    (finish cfg (readLoop cfg fuel s) ((layoutC cfg w as ([], [])).2.map hdrOf)).2.2.2.1.evs = (offsR cfg w as).reverse ++ s.eng.evs ∧
+    (finish cfg (readLoop cfg fuel s) ((layoutC cfg w as ([], [])).2.map hdrOf)).1 = ((runAll cfg w as).offG : Int) ∧
+    (finish cfg (readLoop cfg fuel s) ((layoutC cfg w as ([], [])).2.map hdrOf)).2.1 = (runAll cfg w as).crc := by
+  obtain ⟨s', fuel', hat, hfl, hev, hfin⟩ := sim cfg hm hsvc as w ([], []) s fuel hsz hbound h hf
+  obtain ⟨f, rfl⟩ : ∃ f, fuel' = f + 1 := ⟨fuel' - 1, by omega⟩
+  rw [hfin, readLoop_nil cfg f s' hat.hrest]
+  simp [finish, readFiles, hev, hat.hpos, hat.hcrc]
+
+/-- **truncate_prefix.**  The appends are `pre ++ post` where `post` is the run written into the LAST chunk (no rotation in it);
+    the last chunk is cut `t` bytes after the point where `post` starts (for a rotated chunk: `36 + t` bytes into the file, i.e.
+    the file keeps its complete ROTATE_FROM header — the excluded case is the known finding below).  Then replay ends without
+    error and delivers exactly the events of `pre` followed by the first `complete … t` events of `post`: those that lie, with
+    their padding, inside the cut (a cut crc record ends the replay) — a prefix of the appended list, never a partial event. -/
+theorem truncate_prefix (cfg : Cfg) (hm : cfg.evMagic < 4294967296) (hsvc : cfg.evMagic ∉ serviceMagics)
+    (pre post : List Ap) (w : WS) (s : RS) (fuel t : Nat)
+    (hsz : ∀ a ∈ pre ++ post, a.body.length < 4294967296 ∧ a.ts < 4294967296)
+    (hbound : (runAll cfg w pre).offG < 9223372036854775808)
+    (hnr : NoRotR cfg (runAll cfg w pre) post)
+    (ht : t ≤ (layoutC cfg (runAll cfg w pre) post ([], [])).1.length)
+    (h : At s w.offG w.crc (layoutC cfg w pre ((layoutC cfg (runAll cfg w pre) post ([], [])).1.take t, [])).1)
+    (hf : (layoutC cfg w pre ((layoutC cfg (runAll cfg w pre) post ([], [])).1.take t, [])).1.length / 4 + 2 ≤ fuel) :
+    (finish cfg (readLoop cfg fuel s)
+        ((layoutC cfg w pre ((layoutC cfg (runAll cfg w pre) post ([], [])).1.take t, [])).2.map hdrOf)).2.2.1 = none ∧
+    (finish cfg (readLoop cfg fuel s)
+        ((layoutC cfg w pre ((layoutC cfg (runAll cfg w pre) post ([], [])).1.take t, [])).2.map hdrOf)).2.2.2.1.evs
+      = ((offsR cfg (runAll cfg w pre) post).take (complete cfg (runAll cfg w pre) post t)).reverse ++
+        ((offsR cfg w pre).reverse ++ s.eng.evs) := by
+  obtain ⟨s', fuel', hat, hfl, hev, hfin⟩ := sim cfg hm hsvc pre w (_, []) s fuel
+    (fun a ha => hsz a (List.mem_append_left _ ha)) hbound h hf
+  have hlen : ((layoutC cfg (runAll cfg w pre) post ([], [])).1.take t).length = t := by simp; omega
+  have hc := read_cut cfg hm hsvc post (runAll cfg w pre) s' t fuel' hnr (fun a ha => hsz a (List.mem_append_right _ ha)) hat
+    (by simp only [hlen] at hfl; exact hfl) ht
+  rw [hfin]
+  simp only [finish, List.map_nil, hc.1, readFiles, hc.2.2, hev, and_self]
+
+
+/-- tie between the layout and the writer model's buffer: one append puts exactly the layout's bytes into `buffEx.buff`
+    (event, crc record, and — when it rotates — ROTATE_TO and ROTATE_FROM, with the rotation position recorded between them) -/
+theorem apNext_buff (cfg : Cfg) (w : WS) (a : Ap) :
+    (apNext cfg w a).buff = w.buff ++ apA cfg w a ++ (if rotates cfg w a then apRT cfg w a ++ apRF cfg w a else []) ∧
+    (apNext cfg w a).rotPos = w.rotPos ++ (if rotates cfg w a then [(w.buff ++ apA cfg w a ++ apRT cfg w a).length] else []) := by
+  have hb := (apMid_fields cfg w a).2.1
+  by_cases hr : rotates cfg w a = true
+  · have hr' : needRotate cfg (putCrc cfg w (encEvent cfg.evMagic a.body) a.ts) = true := hr
+    have hrp : (apMid cfg w a).rotPos = w.rotPos := by
+      simp only [apMid, putCrc]; split <;> simp [addCrc, appendLev]
+    simp only [apNext, putBody, hr', if_true, hr]
+    have e : (addRotate cfg (putCrc cfg w (encEvent cfg.evMagic a.body) a.ts) a.ts a.h1 a.h2).buff
+        = w.buff ++ apA cfg w a ++ (apRT cfg w a ++ apRF cfg w a) ∧
+        (addRotate cfg (putCrc cfg w (encEvent cfg.evMagic a.body) a.ts) a.ts a.h1 a.h2).rotPos
+        = w.rotPos ++ [(w.buff ++ apA cfg w a ++ apRT cfg w a).length] := by
+      have hb' : (putCrc cfg w (encEvent cfg.evMagic a.body) a.ts).buff = w.buff ++ apA cfg w a := hb
+      have hrp' : (putCrc cfg w (encEvent cfg.evMagic a.body) a.ts).rotPos = w.rotPos := hrp
+      constructor
+      · simp only [addRotate, appendLev, levRotateSize, padded_rotTo, padded_rotFrom, hb', List.append_assoc]
+        rfl
+      · simp only [addRotate, appendLev, levRotateSize, padded_rotTo, padded_rotFrom, hb', hrp']
+        rfl
+    split <;> simp [e.1, e.2]
+  · have hr' : needRotate cfg (putCrc cfg w (encEvent cfg.evMagic a.body) a.ts) = false := by simpa [rotates, apMid] using hr
+    have hr2 : rotates cfg w a = false := by simpa using hr
+    have hrp : (apMid cfg w a).rotPos = w.rotPos := by
+      simp only [apMid, putCrc]; split <;> simp [addCrc, appendLev]
+    have hb' : (putCrc cfg w (encEvent cfg.evMagic a.body) a.ts).buff = w.buff ++ apA cfg w a := hb
+    have hrp' : (putCrc cfg w (encEvent cfg.evMagic a.body) a.ts).rotPos = w.rotPos := hrp
+    simp only [apNext, putBody, hr', hr2, Bool.false_eq_true, if_false]
+    split <;> simp [hb', hrp']
+
+/-- **seek with the snapshot meta.**  The file holds `A ++ R`, its header says it starts at `h.pos` with checksum `h.crc`, the
+    meta of a commit names the position behind `A` and the checksum of everything up to there.  Then `readAndUpdateCRCIfNeed`
+    accepts (it re-computes the checksum over `A` and compares) and the loop starts at the commit position, with the commit's
+    checksum, on `R` — the precondition `At` of `replay_rotating` / `truncate_prefix` once the engine is at that offset. -/
+theorem seek_resume (cfg : Cfg) (h : Hdr) (A R : Bytes) (m : Meta) (ts : Nat) (hd : h.data = A ++ R)
+    (hpos : m.pos = h.pos + A.length) (hcrc : cfg.upd h.crc A = m.crc) :
+    seek cfg h m.pos (some m) ts = .ok (m.pos, m.crc, R, m.ts) := by
+  have h1 : ¬ (m.pos > m.pos) := Int.lt_irrefl _
+  have h2 : h.pos ≤ m.pos := by omega
+  have h3 : (m.pos - h.pos).toNat = A.length := by omega
+  have h4 : atLeast h.data A.length = true := by rw [atLeast_iff, hd]; simp
+  have t1 : h.data.take A.length = A := by rw [hd]; exact List.take_left' rfl
+  have t2 : h.data.drop A.length = R := by rw [hd]; exact List.drop_left' rfl
+  simp [seek, h2, h3, h4, t1, t2, hcrc]
+
+/-- the same position reached WITHOUT meta: the checksum is recomputed from the file header -/
+theorem seek_nometa (cfg : Cfg) (h : Hdr) (A R : Bytes) (ts : Nat) (hd : h.data = A ++ R) (ha : A.length ≠ 0) :
+    seek cfg h (h.pos + A.length) none ts = .ok (h.pos + A.length, cfg.upd h.crc (h.data.take A.length), R, ts) := by
+  have h4 : atLeast h.data A.length = true := by rw [atLeast_iff, hd]; simp
+  have t2 : h.data.drop A.length = R := by rw [hd]; exact List.drop_left' rfl
+  have h1 : h.pos < h.pos + (A.length : Int) := by omega
+  have h3 : (h.pos + (A.length : Int) - h.pos).toNat = A.length := by omega
+  simp [seek, h1, h3, h4, t2]
 
 
 /-! ### the driver's crc32 satisfies the streaming law -/
@@ -288,6 +399,84 @@ theorem commit_monotone (cfg : Cfg) (ops : List WOp) (s : Sys) (h : CommitInv s)
   | cons op ops ih => exact ih _ (commitInv_step cfg s op h)
 
 
+/-! ### commits never exceed the fsynced bytes (Lemmas/BinlogWriter) -/
+
+/-- the invariant behind "commits never exceed the fsynced bytes"; `B` = global position of the first byte of the oldest file -/
+structure FsInv (B : Nat) (s : Sys) : Prop where
+  winv : Winv (B + writtenEnd s.l) s.w
+  older : OlderSynced s.l
+  sle : SyncedLe s.l
+  commits : ∀ c ∈ s.l.commits, c.off ≤ ((B + syncedEnd s.l : Nat) : Int)
+
+theorem syncedEnd_of_older {l : LS} (h : OlderSynced l) : syncedEnd l = (l.older.map (·.data.length)).sum + l.cur.synced := by
+  simp only [syncedEnd]
+  congr 1
+  exact congrArg List.sum (List.map_congr_left (fun f hf => h f hf))
+
+theorem written_fs (B : Nat) (s : Sys) (h : FsInv B s) :
+    s.w.offG = B + writtenEnd (written s) ∧ OlderSynced (written s) ∧ SyncedLe (written s) ∧ syncedEnd s.l ≤ syncedEnd (written s) := by
+  unfold written
+  split
+  · rename_i he
+    have : s.w.buff.length = 0 := by simpa [List.isEmpty_iff] using he
+    exact ⟨by have := h.winv.1; omega, h.older, h.sle, Nat.le_refl _⟩
+  · have hw := writeBuffer_written s.w.buff s.w.rotPos s.l 0 h.winv.2
+    have hs := writeBuffer_synced s.w.buff s.w.rotPos s.l 0 h.sle
+    refine ⟨?_, writeBuffer_older _ _ _ _ h.older, hs.2, hs.1⟩
+    have := h.winv.1
+    have e : writtenEnd { writeBuffer s.l s.w.buff 0 s.w.rotPos with dirty := true } = writtenEnd (writeBuffer s.l s.w.buff 0 s.w.rotPos) := rfl
+    rw [e, hw]; omega
+
+theorem fsInv_step (cfg : Cfg) (B : Nat) (s : Sys) (op : WOp) (h : FsInv B s) : FsInv B (sysStep cfg s op) := by
+  cases op with
+  | put inOff body asap ts h1 h2 => exact ⟨putLev_winv cfg inOff body asap ts h1 h2 h.winv, h.older, h.sle, h.commits⟩
+  | iter t st =>
+    obtain ⟨ho, hold, hsle, hmono⟩ := written_fs B s h
+    simp only [sysStep, iter]
+    split
+    · -- sync + commit
+      have hse : syncedEnd (syncCommit (written s) s.w (lastRotTs s.w.buff s.w.rotPos s.w.lastTs)) = writtenEnd (written s) := by
+        rw [syncedEnd_of_older (by simpa [syncCommit, OlderSynced] using hold)]
+        simp [syncCommit, FileS.sync, writtenEnd]
+      have hwe : writtenEnd (syncCommit (written s) s.w (lastRotTs s.w.buff s.w.rotPos s.w.lastTs)) = writtenEnd (written s) := by
+        simp [syncCommit, FileS.sync, writtenEnd]
+      refine ⟨⟨?_, ?_⟩, ?_, ?_, ?_⟩
+      · simp only [takeBuf, List.length_nil, hwe]; omega
+      · simp [takeBuf, WF]
+      · simpa [syncCommit, OlderSynced] using hold
+      · simp [syncCommit, SyncedLe, FileS.sync]
+      · intro c hc
+        rw [hse]
+        simp only [syncCommit, List.mem_cons] at hc
+        rcases hc with rfl | hc
+        · simp only; omega
+        · have h1 := h.commits c (by rwa [written_commits] at hc)
+          have h2 : syncedEnd (written s) ≤ writtenEnd (written s) := by
+            rw [syncedEnd_of_older hold]; simp only [writtenEnd]; have := hsle; simp only [SyncedLe] at this; omega
+          omega
+    · refine ⟨⟨?_, ?_⟩, hold, hsle, ?_⟩
+      · simp only [takeBuf, List.length_nil]; omega
+      · simp [takeBuf, WF]
+      · intro c hc
+        have h1 := h.commits c (by rwa [written_commits] at hc)
+        show c.off ≤ ((B + syncedEnd (written s) : Nat) : Int)
+        omega
+
+/-- **commit_le_fsynced (commit_monotone_le_fsynced, second half).**  For every schedule of appends (any arguments) and writer-loop
+    iterations (any timer/stop flags), every `Engine.Commit` offset ever issued is at most the number of bytes of the global
+    stream that are in the files AND covered by an fsync (`B` + synced prefix), hence also at most the bytes written. -/
+theorem commit_le_fsynced (cfg : Cfg) (B : Nat) (ops : List WOp) (s : Sys) (h : FsInv B s) :
+    FsInv B (run cfg s ops) ∧
+    (∀ c ∈ (run cfg s ops).l.commits, c.off ≤ ((B + syncedEnd (run cfg s ops).l : Nat) : Int)) ∧
+    syncedEnd (run cfg s ops).l ≤ writtenEnd (run cfg s ops).l := by
+  have hinv : FsInv B (run cfg s ops) := by
+    induction ops generalizing s with
+    | nil => exact h
+    | cons op ops ih => exact ih _ (fsInv_step cfg B s op h)
+  refine ⟨hinv, hinv.commits, ?_⟩
+  rw [syncedEnd_of_older hinv.older]; simp only [writtenEnd]; have := hinv.sle; simp only [SyncedLe] at this; omega
+
+
 /-! ### restart inside the first chunk: the Rotate lev never slices hashBuff2 out of range (after the fix) -/
 
 /-- in the first file hashBuff2 covers everything beyond the hash boundary, and offsetLocal is the distance from the file start -/
@@ -418,6 +607,53 @@ set_option maxRecDepth 20000 in
 example : (run cfgR sys0 opsT).l.older.length = 1 ∧ syncedEnd (run cfgR sys0 opsT).l = 116 := by decide
 
 
+
+/-! rotation / truncation / commit≤fsynced instances -/
+
+/-- chunk size 100, crc record every 16 bytes: the third append rotates, the last two live in the second chunk -/
+def cfgX : Cfg := { cfgT with chunk := 100 }
+def apsT : List Ap :=
+  [⟨[1, 2, 3], false, 5, 11, 12⟩, ⟨[], true, 6, 13, 14⟩, ⟨[9, 9, 9, 9, 9], false, 7, 15, 16⟩, ⟨[4, 4], false, 8, 17, 18⟩, ⟨[5], true, 8, 19, 20⟩]
+
+set_option maxRecDepth 40000 in
+example : At (sT (layoutC cfgX wT apsT ([], [])).1) wT.offG wT.crc (layoutC cfgX wT apsT ([], [])).1 :=
+  ⟨rfl, rfl, rfl, rfl, rfl, by decide⟩
+set_option maxRecDepth 40000 in
+example : (layoutC cfgX wT apsT ([], [])).2.map (·.length) = [80] := by decide
+set_option maxRecDepth 40000 in
+example : (offsR cfgX wT apsT).map (·.1) = [44, 56, 84, 192, 224] := by decide
+set_option maxRecDepth 40000 in
+example : (finish cfgX (readLoop cfgX 40 (sT (layoutC cfgX wT apsT ([], [])).1))
+    ((layoutC cfgX wT apsT ([], [])).2.map hdrOf)).2.2.2.1.evs.map (·.1) = [224, 192, 84, 56, 44] := by decide
+-- seek_resume: the second chunk of the instance above, resumed at the commit position 224 (behind ROTATE_FROM and the 32 bytes of
+-- the append at 192) with the checksum the writer had there
+def file1 : Bytes := (layoutC cfgX wT apsT ([], [])).2.headD []
+set_option maxRecDepth 40000 in
+example : seek cfgX (hdrOf file1) 224 (some ⟨224, (runAll cfgX wT (apsT.take 4)).crc, 0⟩) 0
+    = .ok (224, (runAll cfgX wT (apsT.take 4)).crc, file1.drop 68, 0) :=
+  seek_resume cfgX (hdrOf file1) (file1.take 68) (file1.drop 68) ⟨224, (runAll cfgX wT (apsT.take 4)).crc, 0⟩ 0
+    (List.take_append_drop 68 file1).symm (by decide) (by decide)
+-- truncate_prefix: pre = the three appends up to the rotation, post = the two appends of the last chunk; cut 20 bytes after the
+-- ROTATE_FROM header: the 12-byte event at 192 is complete, its 20-byte crc record is cut -> exactly one more event
+set_option maxRecDepth 40000 in
+example : NoRotR cfgX (runAll cfgX wT (apsT.take 3)) (apsT.drop 3) := ⟨by decide, by decide, trivial⟩
+set_option maxRecDepth 40000 in
+example : complete cfgX (runAll cfgX wT (apsT.take 3)) (apsT.drop 3) 20 = 1 := by decide
+set_option maxRecDepth 40000 in
+example : (finish cfgX (readLoop cfgX 40
+      (sT (layoutC cfgX wT (apsT.take 3) ((layoutC cfgX (runAll cfgX wT (apsT.take 3)) (apsT.drop 3) ([], [])).1.take 20, [])).1))
+    ((layoutC cfgX wT (apsT.take 3) ((layoutC cfgX (runAll cfgX wT (apsT.take 3)) (apsT.drop 3) ([], [])).1.take 20, [])).2.map hdrOf)).2.2.2.1.evs.map (·.1)
+    = [192, 84, 56, 44] := by decide
+-- the hypothesis "the last chunk keeps its complete ROTATE_FROM header" of `truncate_prefix` (built into the layout: the cut is
+-- applied behind `apRF`) is NEEDED: see the `decide` witnesses of the known finding below (`chunk1.take 10`: scan error,
+-- `chunk1.take 2`: panic, although every event of `chunk0` is complete).
+
+example : FsInv 0 sys0 :=
+  ⟨⟨by decide, Nat.zero_le _⟩, (fun _ h => by cases h), (Nat.le_refl _), (fun _ h => by cases h)⟩
+set_option maxRecDepth 20000 in
+example : ((run cfgR sys0 opsT).l.commits.map (·.off)) = [116, 24, 12] ∧ syncedEnd (run cfgR sys0 opsT).l = 116 := by decide
+
+
 /-! ### defect fixed by fixes/C18-restart-first-chunk-hash.diff (sig=append-panic): witness on the old behaviour
 
   Before the fix WriteLoop left hashBuff2 empty after a restart (`restoreTail := false`).  MaxChunkSize 40000, the first
@@ -459,15 +695,24 @@ set_option maxRecDepth 20000 in
 example : (readAll cfgT [chunk0, chunk1] 0 none 0 eng0).err = none ∧
           (readAll cfgT [chunk0, chunk1] 0 none 0 eng0).eng.evs = [(24, encEvent 0x12345 [1, 2, 3])] := by decide
 
-/-
-  NOT PROVED (full statements kept; covered by the correspondence + oracle of go/C18, thorough tier enumerates every offset):
+/-! ### md5 chain: the Go reader does NOT verify PrevLogHash/CurLogHash (deepening target "a ROTATE_FROM whose prev-hash does not
+  match is rejected" is false of the code; the property text does not ask for it).  Witness: the second chunk's ROTATE_FROM
+  carries prev-hash 999 instead of the 1 announced by ROTATE_TO, replay is unchanged.  (The exhaustive bit-flip slice of the
+  correspondence flips these header bytes on the real reader with the same result.) -/
+set_option maxRecDepth 20000 in
+example : (readAll cfgT [chunk0, encRotFrom 5 72 0 999 2] 0 none 0 eng0).err = none ∧
+          (readAll cfgT [chunk0, encRotFrom 5 72 0 999 2] 0 none 0 eng0).eng.evs = [(24, encEvent 0x12345 [1, 2, 3])] := by decide
 
-  theorem truncate_prefix : ∀ es w t, NoRotate cfg w es → … → s.rest = (produced bytes).take t → s.slack = t % 4 →
-      (readLoop cfg fuel s).err = none ∧ (readLoop cfg fuel s).s.eng.evs = ((offsets cfg w es).take (complete es t)).reverse
-    -- `readStep_event` above is already stated for an arbitrary `slack` (the cut stream), the induction over the cut point
-    -- (complete event / cut crc record / cut event) is missing.
-  theorem replay_all_rotating : the same as `replay_all` without `NoRotate`, for `readAll` over the files `writeBuffer` creates.
-  theorem commit_le_fsynced : CommitInv … → ∀ c ∈ commits, c.off ≤ base + syncedEnd l    (needs rotatePos well-formedness)
+/-
+  STILL NOT PROVED (covered by the correspondence + oracle of go/C18):
+  * the `readAllFromPosition` wrapper around the proved core: `scan`/`sortHdrs` of the files (the header of every later chunk
+    IS proved to parse to `hdrOf`, `scanHeader_rotFrom`), `indexByPos` picking the chunk of the commit position, and that the
+    hypotheses of `seek_resume` hold for the writer's files (length/checksum accounting of the bytes in front of the commit
+    position).  `replay_rotating`/`truncate_prefix` start after that wrapper (state `At`), `seek_resume` is the seek step.
+  * reading the LevStart/tag records of the very first chunk (replay from offset 0 rather than from the first commit at 44).
+  * `writeBuffer` splitting the buffer at `rotatePos` into exactly the chunks of `layoutC` (`apNext_buff` ties the buffer bytes
+    and the recorded positions to the layout; `writeBuffer_written` proves the byte accounting, not the contents).
+  * truncation that removes whole later files (a chunk ending in ROTATE_TO with its successor deleted).
 -/
 
 end SH.C18
